@@ -612,3 +612,76 @@ func ruleFrmParamSlot(c *Ctx, r *R) {
 		r.undecided("param slot", c.Pos(fsc.Clause), "the registration of the parameters in the function's local table was not found")
 	}
 }
+
+// LAY-EVALORDER: Go performs the calls of an expression in lexical left-to-right order, so
+// in f(a...)/recv.m(a...) a call inside the function operand (getF()(..), s.pop().sub(..))
+// happens before the calls inside the arguments.  CALL wants the function on top of the
+// stack, so compile("call") emits the arguments first; that is only unobservable when the
+// operand and the arguments do not both contain calls.  On every path that emits the
+// arguments before the function operand, the compiler must have established exactly that.
+func ruleLayEvalOrder(c *Ctx, r *R) {
+	cs, err := c.compileSwitch()
+	if err != nil {
+		r.undecided("compile", "-", err.Error())
+		return
+	}
+	sc := cs.ByLabel["call"]
+	if sc == nil {
+		r.undecided("call", "-", "no compile-case")
+		return
+	}
+	m := newLayMachine(c)
+	cl, err := m.runCase(cs, "call")
+	if err != nil {
+		r.undecided("call", c.Pos(sc.Clause), err.Error())
+		return
+	}
+	n, bad := 0, ""
+	for _, p := range cl.Paths {
+		argAt, fnAt, calls := -1, -1, false
+		for i, a := range p.Atoms {
+			if a.Ins != nil {
+				if op := opName(a.Ins); op == "Call" || op == "CallVariadic" {
+					calls = true
+				}
+				continue
+			}
+			if a.Seg == nil || a.Seg.Src == nil {
+				continue
+			}
+			src := a.Seg.Src.String()
+			switch {
+			case strings.Contains(src, "compiler.compileAll(c, tok.Tokens[1].Tokens)"):
+				argAt = i
+			case strings.Contains(src, "compiler.compile(c, tok.Tokens[0])"):
+				if fnAt < 0 {
+					fnAt = i
+				}
+			}
+		}
+		if !calls || argAt < 0 || fnAt < 0 {
+			continue
+		}
+		n++
+		if fnAt < argAt {
+			continue // operand first: Go's order
+		}
+		cond := condStrings(p.St)
+		established := false
+		for _, cd := range p.St.Conds {
+			s := cd.String()
+			if strings.HasPrefix(s, "!") && strings.Contains(s, "Call(") {
+				established = true
+			}
+		}
+		if !established && bad == "" {
+			bad = cond
+		}
+	}
+	if n == 0 {
+		r.undecided("eval order", c.Pos(sc.Clause), "no path of compile(\"call\") emits a call of a compiled function operand")
+		return
+	}
+	r.check(bad == "", "eval order", c.Pos(sc.Clause), "arguments precede the function operand only when they cannot both contain calls",
+		"compile(\"call\") emits the arguments before the function operand on a path that has not established that they do not both contain calls ("+bad+"): `s.pop().sub(s.pop())` pops the argument first (-9 instead of 9), `getF()(arg())` runs arg before getF")
+}
